@@ -189,7 +189,7 @@ func runC02(c *Ctx) {
 			}
 			nRet++
 			key := "GetDataType:return#" + itoa(nRet)
-			facts := factsOf(guardsAt(info, stack))
+			facts := flagFacts(info, fd.Body, defs, factsOf(guardsAt(info, stack)), rs.Pos()) // c02x.go: `empty := dt == ""; if empty {…}`
 			var val ast.Expr
 			if len(rs.Results) == 1 {
 				val = unparen(rs.Results[0])
